@@ -182,7 +182,8 @@ def run(sc: dict) -> RunResult:
             else:
                 # the same pair may be referenced from several (Roland) directories, in some of which it is ambiguous
                 bases = [h.rsplit("/", 1)[-1][:-4] for h in hit]
-                if not any(_loose(b) == _loose(stem) for b in bases):
+                # the stem is a clean component here (checked above), so sanitising leaves it as it is
+                if not any(b == stem for b in bases):
                     res.add(PROP, "stereo_name", "pair %r/%r written as %r, stem is %r" % (l.name, rr.name, bases, stem))
     res.steps, res.io_events = obs.steps, obs.io_events
     res.digest = digest_of(obs.event_digest, er.stdout, tree_digest(er.tree), [v.cls for v in res.violations])
